@@ -48,13 +48,15 @@ pub mod c19 {
         pub bpp: u16,
         pub compress: bool,
         pub data: Vec<u8>,
+        /// the data is a conformant encoding of exactly img_w x img_h pixels (made by the reference encoders)
+        pub conformant: bool,
         pub class: &'static str,
     }
 
     impl Case {
         pub fn to_json(&self) -> Value {
             json!({"win": [self.win_w, self.win_h], "rect": [self.left, self.top, self.right, self.bottom], "img": [self.img_w, self.img_h], "bpp": self.bpp,
-                   "compress": self.compress, "data": hex(&self.data[..self.data.len().min(8192)]), "data_len": self.data.len(), "class": self.class})
+                   "compress": self.compress, "data": hex(&self.data[..self.data.len().min(8192)]), "data_len": self.data.len(), "conformant": self.conformant, "class": self.class})
         }
         pub fn from_json(v: &Value) -> Case {
             let a = |k: &str, i: usize| v[k][i].as_u64().unwrap_or(0);
@@ -70,6 +72,7 @@ pub mod c19 {
                 bpp: v["bpp"].as_u64().unwrap_or(32) as u16,
                 compress: v["compress"].as_bool().unwrap_or(false),
                 data: unhex(v["data"].as_str().unwrap_or("")),
+                conformant: v["conformant"].as_bool().unwrap_or(false) && v["data_len"].as_u64().unwrap_or(0) <= 8192,
                 class: "replay",
             }
         }
@@ -78,8 +81,12 @@ pub mod c19 {
         }
     }
 
-    /// image data of the requested kind for a w x h image; `len_mode`: 0 exact, 1 short, 2 long, 3 empty
+    /// image data of the requested kind for a w x h image; `len_mode`: 0 exact, 1 short, 2 long, 3 empty,
+    /// 4 hostile (for the compressed kinds: C08's streams with runs placed at line and buffer edges)
     pub fn image_data(r: &mut Rng, w: usize, h: usize, bpp: u16, compress: bool, len_mode: u64) -> Vec<u8> {
+        if len_mode == 4 && compress && w > 0 && h > 0 {
+            return if bpp == 32 { rdpverif::props::c08::hostile_planar(r, w, h) } else { rdpverif::props::c08::hostile_rle16(r, w, h) };
+        }
         let mut d = if w == 0 || h == 0 {
             Vec::new()
         } else if bpp == 32 && !compress {
@@ -107,6 +114,44 @@ pub mod c19 {
         d
     }
 
+    /// the picture a conformant bitmap carries, by the independent decoders of C09; None when the data is not a
+    /// conformant encoding of a w x h picture (short, surplus bytes, hostile streams)
+    pub fn reference_image(c: &Case) -> Option<Vec<u32>> {
+        let (w, h) = (c.img_w as usize, c.img_h as usize);
+        if w == 0 || h == 0 || !c.conformant {
+            return None;
+        }
+        let px = |b: &[u8]| -> Vec<u32> { b.chunks(4).map(|x| u32::from_le_bytes([x[0], x[1], x[2], x[3]])).collect() };
+        match (c.bpp, c.compress) {
+            (32, false) => {
+                if c.data.len() != w * h * 4 {
+                    return None;
+                }
+                let mut out = Vec::with_capacity(w * h * 4);
+                for y in (0..h).rev() {
+                    out.extend_from_slice(&c.data[y * w * 4..(y + 1) * w * 4]);
+                }
+                Some(px(&out))
+            }
+            (32, true) => refrle::decode_planar(&c.data, w, h).ok().filter(|v| v.len() == w * h * 4).map(|v| px(&v)),
+            (16, false) => {
+                if c.data.len() != w * h * 2 {
+                    return None;
+                }
+                let mut img: Vec<u16> = Vec::with_capacity(w * h);
+                for y in (0..h).rev() {
+                    for x in 0..w {
+                        let o = (y * w + x) * 2;
+                        img.push(u16::from_le_bytes([c.data[o], c.data[o + 1]]));
+                    }
+                }
+                Some(px(&refrle::expand565_image(&img)))
+            }
+            (16, true) => refrle::decode_rle16(&c.data, w, h).ok().filter(|v| v.len() == w * h).map(|v| px(&refrle::expand565_image(&v))),
+            _ => None,
+        }
+    }
+
     pub enum Verdict {
         Fine,
         Violation(String, String),
@@ -123,10 +168,26 @@ pub mod c19 {
             buffer.push(pattern(i));
         }
         // the image the blit will see, obtained from the same decompressor (its own correctness is C08/C09's subject)
-        let src: Option<Vec<u32>> = match c.event().decompress() {
-            Ok(v) => Some(v.chunks(4).filter(|x| x.len() == 4).map(|x| u32::from_le_bytes([x[0], x[1], x[2], x[3]])).collect()),
-            Err(_) => None,
+        let ev0 = c.event();
+        let src: Option<Vec<u32>> = match mon::guarded(move || ev0.decompress()) {
+            Ok(Ok(v)) => Some(v.chunks(4).filter(|x| x.len() == 4).map(|x| u32::from_le_bytes([x[0], x[1], x[2], x[3]])).collect()),
+            Ok(Err(_)) => None,
+            Err(p) => {
+                // the blit decodes the image with this very call: a panic here is a panic while painting
+                rep.hist("panic");
+                return Verdict::Violation(format!("C19/bpp{}/{}/{}", c.bpp, if c.compress { "rle" } else { "raw" }, p.sig()), format!("{} at {}:{}", p.msg, p.file, p.line));
+            }
         };
+        // end to end: when the data is a conformant encoding (the independent reference decoder accepts it and it
+        // has no surplus bytes), what is painted must be the picture that was sent
+        let reference: Option<Vec<u32>> = reference_image(c);
+        if let (Some(s), Some(rf)) = (&src, &reference) {
+            if s != rf {
+                let pos = s.iter().zip(rf.iter()).position(|(a, b)| a != b).unwrap_or(s.len().min(rf.len()));
+                return Verdict::Violation(format!("C19/bpp{}/{}/image-to-paint-differs-from-the-image-sent", c.bpp, if c.compress { "rle" } else { "raw" }), format!("{}x{} image, {} data bytes: pixel {} of the image handed to the blit differs from the independent decoding ({} vs {} pixels)", c.img_w, c.img_h, c.data.len(), pos, s.len(), rf.len()));
+            }
+            rep.hist("image-agrees-with-reference-decoding");
+        }
         let ev = c.event();
         let w = c.win_w;
         let res = mon::guarded(|| super::super::fast_bitmap_transfer(&mut buffer, w, ev).map_err(|e| format!("{:?}", e).chars().take(60).collect::<String>()));
@@ -230,9 +291,9 @@ pub mod c19 {
                     1 => ((right as i32 - left as i32 + 1).max(0) as u16 + r.below(3) as u16, (bottom as i32 - top as i32 + 1).max(0) as u16 + r.below(2) as u16),
                     _ => (r.below(10) as u16, r.below(10) as u16),
                 };
-                let len_mode = if r.chance(3, 4) { 0 } else { r.range(1, 3) };
+                let len_mode = if r.chance(3, 4) { 0 } else { r.range(1, 4) };
                 let data = image_data(&mut r, iw as usize, ih as usize, bpp, compress, len_mode);
-                Case { win_w, win_h, left, top, right, bottom, img_w: iw, img_h: ih, bpp, compress, data, class: "small-exhaustive-geometry" }
+                Case { win_w, win_h, left, top, right, bottom, img_w: iw, img_h: ih, bpp, compress, data, conformant: len_mode == 0, class: "small-exhaustive-geometry" }
             }
             2 => {
                 // paintable: rectangle inside the window, image at least as large (exactness is required here)
@@ -248,7 +309,7 @@ pub mod c19 {
                 let ih = ch + *r.pick(&[0u16, 0, 0, 1, 2]);
                 let (bpp, compress) = MODES[r.below(4) as usize];
                 let data = image_data(&mut r, iw as usize, ih as usize, bpp, compress, 0);
-                Case { win_w, win_h, left, top, right, bottom, img_w: iw, img_h: ih, bpp, compress, data, class: "paintable" }
+                Case { win_w, win_h, left, top, right, bottom, img_w: iw, img_h: ih, bpp, compress, data, conformant: true, class: "paintable" }
             }
             _ => {
                 // larger windows, rectangles in and out of range, extreme coordinates
@@ -282,9 +343,9 @@ pub mod c19 {
                 };
                 let (iw, ih) = (iw.min(1400), ih.min(100));
                 let (bpp, compress) = MODES[r.below(4) as usize];
-                let len_mode = if r.chance(5, 6) { 0 } else { r.range(1, 3) };
+                let len_mode = if r.chance(4, 6) { 0 } else { r.range(1, 4) };
                 let data = image_data(&mut r, iw as usize, ih as usize, bpp, compress, len_mode);
-                Case { win_w, win_h, left, top, right, bottom, img_w: iw, img_h: ih, bpp, compress, data, class: "large-random-geometry" }
+                Case { win_w, win_h, left, top, right, bottom, img_w: iw, img_h: ih, bpp, compress, data, conformant: len_mode == 0, class: "large-random-geometry" }
             }
         }
     }
@@ -500,13 +561,14 @@ pub mod c20 {
         pub pauses: bool,
         /// the end event travels in the same TLS record as the PDUs just before it
         pub end_in_same_record: bool,
+        pub big: u8,
         pub seed: u64,
     }
 
     impl Scenario {
         pub fn to_json(&self) -> Value {
             json!({"packing": format!("{:?}", self.packing), "n_pdus": self.n_pdus, "end": format!("{:?}", self.end), "point": format!("{:?}", self.point), "step": format!("{:?}", self.step),
-                   "tls12": self.tls12, "linger": self.linger, "input_writer": self.input_writer, "pauses": self.pauses, "end_in_same_record": self.end_in_same_record, "seed": self.seed, "gen": self.gen_idx()})
+                   "tls12": self.tls12, "linger": self.linger, "input_writer": self.input_writer, "pauses": self.pauses, "end_in_same_record": self.end_in_same_record, "big": self.big, "seed": self.seed, "gen": self.gen_idx()})
         }
         fn gen_idx(&self) -> Value {
             Value::Null
@@ -630,11 +692,15 @@ pub mod c20 {
         }
     }
 
-    fn bitmap_pdu(srv: &Server, k: usize) -> (Vec<u8>, Vec<Vec<u8>>) {
-        let nr = 1 + k % 3;
+    /// `big`: 0 = 16-byte rectangles; 1 = every other PDU carries 2 KiB rectangles (frame > 1500 bytes);
+    /// 2 = every other PDU carries one 20 KiB rectangle (larger than a TLS record)
+    fn bitmap_pdu(srv: &Server, k: usize, big: u8) -> (Vec<u8>, Vec<Vec<u8>>) {
+        let large = big > 0 && k % 2 == 0;
+        let nr = if large && big == 2 { 1 } else { 1 + k % 3 };
+        let (w, h): (u16, u16) = if !large { (2, 2) } else if big == 1 { (32, 16) } else { (64, 80) };
         let rects: Vec<Rect> = (0..nr)
-            .map(|i| Rect { left: k as u16, top: i as u16, right: k as u16 + 1, bottom: i as u16 + 1, width: 2, height: 2, bpp: 32, flags: 0, data: {
-                let mut d = vec![0u8; 16];
+            .map(|i| Rect { left: k as u16, top: i as u16, right: k as u16 + w - 1, bottom: i as u16 + h - 1, width: w, height: h, bpp: 32, flags: 0, data: {
+                let mut d = vec![0u8; w as usize * h as usize * 4];
                 d[0] = k as u8;
                 d[1] = (k >> 8) as u8;
                 d[2] = i as u8;
@@ -762,8 +828,20 @@ pub mod c20 {
             Some(std::thread::spawn(move || {
                 let mut r = Rng::derive(seed, "C20-writer", 0, 0);
                 while !stop.load(Ordering::SeqCst) {
-                    if let Ok(mut g) = sh.lock() {
-                        let _ = g.try_write(RdpEvent::Key(KeyboardEvent { code: 0x1e, down: true }));
+                    // contend for the client like the GUI's input path, but stay cancellable: a receive thread
+                    // that never lets go of the mutex must not hang the harness
+                    loop {
+                        if stop.load(Ordering::SeqCst) {
+                            break;
+                        }
+                        match sh.try_lock() {
+                            Ok(mut g) => {
+                                let _ = g.try_write(RdpEvent::Key(KeyboardEvent { code: 0x1e, down: true }));
+                                break;
+                            }
+                            Err(std::sync::TryLockError::WouldBlock) => std::thread::sleep(Duration::from_micros(20)),
+                            Err(_) => break,
+                        }
                     }
                     std::thread::sleep(Duration::from_micros(r.range(50, 2000)));
                 }
@@ -795,7 +873,7 @@ pub mod c20 {
         while k < end_after {
             match &sc.packing {
                 Packing::OnePerRecord => {
-                    let (f, st) = bitmap_pdu(&srv, k);
+                    let (f, st) = bitmap_pdu(&srv, k, sc.big);
                     srv.write_raw(&srv.seal(&f));
                     expected.extend(st);
                     k += 1;
@@ -804,7 +882,7 @@ pub mod c20 {
                     let mut plain = Vec::new();
                     let mut j = 0;
                     while j < *n && k < end_after {
-                        let (f, st) = bitmap_pdu(&srv, k);
+                        let (f, st) = bitmap_pdu(&srv, k, sc.big);
                         plain.extend_from_slice(&f);
                         expected.extend(st);
                         k += 1;
@@ -813,7 +891,7 @@ pub mod c20 {
                     srv.write_raw(&srv.seal(&plain));
                 }
                 Packing::SplitAcrossRecords(n) => {
-                    let (f, st) = bitmap_pdu(&srv, k);
+                    let (f, st) = bitmap_pdu(&srv, k, sc.big);
                     let piece = (f.len() + n - 1) / n;
                     for ch in f.chunks(piece.max(1)) {
                         srv.write_raw(&srv.seal(ch));
@@ -823,7 +901,7 @@ pub mod c20 {
                     k += 1;
                 }
                 Packing::SegmentSplit(off) => {
-                    let (f, st) = bitmap_pdu(&srv, k);
+                    let (f, st) = bitmap_pdu(&srv, k, sc.big);
                     let ct = srv.seal(&f);
                     let cut = (*off).min(ct.len());
                     srv.write_raw(&ct[..cut]);
@@ -857,7 +935,7 @@ pub mod c20 {
                 gate.enabled.store(true, Ordering::SeqCst);
                 let base = *gate.arrived.lock().unwrap();
                 // a normal PDU makes select fire; the thread locks and enters read(), where the gate holds it
-                let (f, st) = bitmap_pdu(&srv, 900);
+                let (f, st) = bitmap_pdu(&srv, 900, sc.big);
                 srv.write_raw(&srv.seal(&f));
                 expected.extend(st);
                 let mut a = gate.arrived.lock().unwrap();
@@ -870,7 +948,7 @@ pub mod c20 {
             }
             Step::AtLock => {
                 held_lock = Some(shared.lock().unwrap());
-                let (f, st) = bitmap_pdu(&srv, 901);
+                let (f, st) = bitmap_pdu(&srv, 901, sc.big);
                 srv.write_raw(&srv.seal(&f));
                 expected.extend(st);
                 // wait until the thread is blocked on the mutex (futex)
@@ -896,8 +974,8 @@ pub mod c20 {
             End::Ultimatum | End::GarbagePdu => {
                 let bytes = end_bytes.clone().unwrap();
                 if sc.end_in_same_record {
-                    let (f, st) = bitmap_pdu(&srv, 960);
-                    let (f2, st2) = bitmap_pdu(&srv, 961);
+                    let (f, st) = bitmap_pdu(&srv, 960, sc.big);
+                    let (f2, st2) = bitmap_pdu(&srv, 961, sc.big);
                     expected.extend(st);
                     expected.extend(st2);
                     let mut plain = f;
@@ -912,7 +990,7 @@ pub mod c20 {
             }
             End::CloseNotify => {
                 if point == Point::MiddleOfPdu {
-                    let (f, _) = bitmap_pdu(&srv, 950);
+                    let (f, _) = bitmap_pdu(&srv, 950, sc.big);
                     srv.write_raw(&srv.seal(&f[..f.len() / 2]));
                 }
                 let cn = state.lock().unwrap().tls.as_mut().map(|t| t.close_notify()).unwrap_or_default();
@@ -925,7 +1003,7 @@ pub mod c20 {
             }
             End::AbruptClose => {
                 if point == Point::MiddleOfPdu {
-                    let (f, _) = bitmap_pdu(&srv, 950);
+                    let (f, _) = bitmap_pdu(&srv, 950, sc.big);
                     let ct = srv.seal(&f);
                     srv.write_raw(&ct[..ct.len() / 2]);
                 }
@@ -950,7 +1028,7 @@ pub mod c20 {
         // remaining PDUs after a "none" end (or nothing after a real end)
         if sc.end == End::None {
             while k < total {
-                let (f, st) = bitmap_pdu(&srv, k);
+                let (f, st) = bitmap_pdu(&srv, k, sc.big);
                 srv.write_raw(&srv.seal(&f));
                 expected.extend(st);
                 k += 1;
@@ -1076,7 +1154,7 @@ pub mod c20 {
                 let point = points[(k % 4) as usize];
                 k /= 4;
                 let step = steps[(k % 3) as usize];
-                Scenario { packing, n_pdus: 6, end, point, step, tls12: r.chance(2, 3), linger: r.chance(1, 2), input_writer: r.chance(1, 2), pauses: r.chance(1, 2), end_in_same_record: r.chance(1, 5), seed: seed ^ idx }
+                Scenario { packing, n_pdus: 6, end, point, step, tls12: r.chance(2, 3), linger: r.chance(1, 2), input_writer: r.chance(1, 2), pauses: r.chance(1, 2), end_in_same_record: r.chance(1, 5), big: r.below(3) as u8, seed: seed ^ idx }
             }
             _ => Scenario {
                 packing: packings[r.below(packings.len() as u64) as usize].clone(),
@@ -1089,6 +1167,7 @@ pub mod c20 {
                 input_writer: r.chance(2, 3),
                 pauses: true,
                 end_in_same_record: r.chance(1, 5),
+                big: r.below(3) as u8,
                 seed: seed.wrapping_mul(31) ^ idx,
             },
         }
